@@ -525,8 +525,11 @@ class SymNum:
 class SymNpInt(SymNum):
     """a symbolic integer carried by a numpy integer scalar (what Discrete.sample() returns):
     the value is symbolic, the carrier type is what isinstance() sees"""
-    __slots__ = ()
-    carrier = 'numpy.int64'
+    __slots__ = ('carrier',)
+
+    def __init__(self, z, carrier='int64'):
+        SymNum.__init__(self, z)
+        self.carrier = carrier
 
 
 def _div(a, b):
